@@ -608,7 +608,12 @@ func drawRestStep(t *rapid.T) restStep {
 func TestC18_Endpoints(t *testing.T) {
 	c18Main.rapid(t, ev.Pick(600, 12_000), func(t *rapid.T) c18Case {
 		n := rapid.IntRange(1, 12).Draw(t, "n")
-		c := c18Case{Conc: rapid.SampledFrom([]int{1, 1, 2, 4, 8}).Draw(t, "conc")}
+		concs := []int{1, 1, 2, 4, 8}
+		if ev.Thorough() {
+			concs = append(concs, 16, 32) // the server admits 50 connections per address
+			n = rapid.IntRange(1, 40).Draw(t, "nThorough")
+		}
+		c := c18Case{Conc: rapid.SampledFrom(concs).Draw(t, "conc")}
 		for i := 0; i < n; i++ {
 			c.Steps = append(c.Steps, drawRestStep(t))
 		}
